@@ -289,10 +289,10 @@ Qed.
 
 (** A line that starts NAME= and contains no '>' is a list of assignments. *)
 Lemma exec_line_assign_line st n rest :
-  is_name n = true -> ~ In x3e (n ++ x3d :: rest) ->
+  is_name n = true -> ~ In x3e (n ++ x3d :: rest) -> has_quote (n ++ x3d :: rest) = false ->
   exec_line st (n ++ x3d :: rest) = exec_assigns st (tokens (n ++ x3d :: rest)).
 Proof.
-  intros Hn Hgt. unfold exec_line.
+  intros Hn Hgt Hq. unfold exec_line, exec_assign_line. rewrite Hq.
   assert (Hc : forallb is_name_char n = true) by (apply is_name_chars; exact Hn).
   assert (H0 : head_is x23 (n ++ x3d :: rest) = false).
   { destruct n as [|c n]; [discriminate|]. cbn in Hn |- *. apply andb_true_iff in Hn as [Ha _].
@@ -317,7 +317,7 @@ Lemma exec_line_tmpdir st d : var_value (bs "PWD") st = Some d ->
 Proof.
   intros Hp.
   change (bs "TMPDIR=$PWD HOME=$PWD/..") with (bs "TMPDIR" ++ x3d :: bs "$PWD HOME=$PWD/..").
-  rewrite exec_line_assign_line; [|reflexivity|vm_compute; intuition discriminate].
+  rewrite exec_line_assign_line; [|reflexivity|vm_compute; intuition discriminate|reflexivity].
   change (tokens (bs "TMPDIR" ++ x3d :: bs "$PWD HOME=$PWD/..")) with [bs "TMPDIR=$PWD"; bs "HOME=$PWD/.."].
   cbn [exec_assigns].
   assert (E1 : exec_assign st (bs "TMPDIR=$PWD") = Some (set_var (bs "TMPDIR") d st)).
@@ -447,6 +447,21 @@ Proof.
     + destruct Hc as [<-|Hc]; [reflexivity|]. rewrite forallb_forall in Hv; auto.
 Qed.
 
+Lemma render_with_chars i l : Forall wf_item (i :: l) ->
+  forall c, In c (render_with (i :: l)) -> harmless c = true \/ is_sep c = true.
+Proof.
+  intros H c Hin. inversion H as [|? ? Hi Hl]; subst.
+  cbn in Hin. apply in_app_or in Hin as [Hin|Hin].
+  - left. destruct Hi as [Hn Hv]. unfold render_item in Hin. apply in_app_or in Hin as [Hin|Hin].
+    + apply name_char_harmless. apply is_name_chars in Hn. rewrite forallb_forall in Hn; auto.
+    + destruct Hin as [<-|Hin]; [reflexivity|]. rewrite forallb_forall in Hv; auto.
+  - eapply render_rest_chars; eauto.
+Qed.
+
+Lemma harmless_or_sep_plain c : harmless c = true \/ is_sep c = true ->
+  c <> x3e /\ (Byte.eqb c x27 || Byte.eqb c x22) = false.
+Proof. destruct c; vm_compute; intros [H|H]; try discriminate H; split; congruence. Qed.
+
 Lemma exec_with_line st i l : Forall wf_item (i :: l) ->
   exec_line st (render_with (i :: l)) = Some (assign_all st (i :: l)).
 Proof.
@@ -456,14 +471,11 @@ Proof.
   rewrite E. rewrite exec_line_assign_line.
   - rewrite <- E. rewrite tokens_render_with by exact H'. apply exec_assigns_items; exact H'.
   - apply Hi.
-  - rewrite <- E. intros Hin.
-    assert (X : harmless x3e = true \/ is_sep x3e = true).
-    { cbn in Hin. apply in_app_or in Hin as [Hin|Hin].
-      + left. destruct Hi as [Hn Hv]. unfold render_item in Hin. apply in_app_or in Hin as [Hin|Hin].
-        * apply name_char_harmless. apply is_name_chars in Hn. rewrite forallb_forall in Hn; auto.
-        * destruct Hin as [Q|Hin]; [discriminate Q|]. rewrite forallb_forall in Hv; auto.
-      + eapply render_rest_chars; eauto. }
-    destruct X as [X|X]; discriminate X.
+  - rewrite <- E. intros Hin. apply (render_with_chars i l H') in Hin.
+    apply harmless_or_sep_plain in Hin as [X _]. congruence.
+  - rewrite <- E. unfold has_quote. apply not_true_is_false. intros Hq.
+    apply existsb_exists in Hq as (c & Hin & Hc). apply (render_with_chars i l H') in Hin.
+    apply harmless_or_sep_plain in Hin as [_ X]. congruence.
 Qed.
 
 Theorem state_at_command caller shell workDir name ws redirect :
